@@ -53,6 +53,13 @@ def run(ctx):
         for j in range(0, 12 if quick else 30):
             for i in range(0, 30 if quick else 60, 3 if quick else 1):
                 scheds.append([1] * j + [0] * i)
+        # three preemption points around the creation of the backup's band: the backup has made its directory (no head yet),
+        # the collector starts and looks at the archive, the backup writes its head and reads the lock and the block
+        # directory, the collector runs to its end, the backup finishes
+        for k1 in (4, 5, 6, 7):
+            for k2 in range(1, 8 if quick else 12):
+                for k3 in (range(2, 14, 2) if quick else range(1, 16)):
+                    scheds.append([0] * k1 + [1] * k2 + [0] * k3 + [1] * 300)
         for _ in range(60 if quick else 3000):
             s, cur = [], ctx.rng.randrange(2)
             for _ in range(ctx.rng.randrange(1, 5)):
@@ -65,7 +72,7 @@ def run(ctx):
             cases.append({"id": cid, "steps": steps_for(sc, s)})
     ctx.cov["rule"] = ("archives where one version's blocks are referenced by nothing else and reappear in the new source; a delete/gc and a backup "
                        "interleaved at storage-operation granularity: all schedules with two preemption points over a grid (backup runs i ops, the "
-                       "collector j ops, then both to completion; and the mirror image) + random schedules with up to 4 switches; oracle: both finish, "
+                       "collector j ops, then both to completion; and the mirror image) + a three-preemption grid around the creation of the backup's band + random schedules with up to 4 switches; oracle: both finish, "
                        "no crash, every version marked complete has all its blocks and restores to its source. non-trivial = distinct schedule in which "
                        "both actors performed operations before either finished")
     res = ctx.cvh_run(cases, shards=16, timeout=3000)
